@@ -37,3 +37,46 @@ func TestRawFallbackUTF8(t *testing.T) {
 		t.Fatalf("text returned by the library is not valid UTF-8: %q", got)
 	}
 }
+
+// C07 / R7.11: the bfrange section with array targets was cut into lines at "\n" and each line read on its own, so
+// the meaning of a CMap program depended on its formatting: without line breaks, with CR line breaks, with a triple
+// after an array on the same line, or with the array starting on a later line than its codes, mappings were lost.
+func TestBfRangeArraysUnderEveryFormatting(t *testing.T) {
+	for _, body := range []string{
+		"2 beginbfrange <0001> <0002> [<0041> <0042>] <0003> <0004> <0050> endbfrange",
+		"2 beginbfrange\n<0001> <0002> [<0041> <0042>]\n<0003> <0004> <0050>\nendbfrange",
+		"2 beginbfrange\r<0001> <0002> [<0041> <0042>]\r<0003> <0004> <0050>\rendbfrange",
+		"2 beginbfrange\r\n<0001> <0002> [<0041> <0042>]\r\n<0003> <0004> <0050>\r\nendbfrange",
+		"2 beginbfrange\n<0001> <0002> [<0041> <0042>] <0003> <0004> <0050>\nendbfrange",
+		"2 beginbfrange\n<0001> <0002>\n[<0041>\n<0042>]\n<0003> <0004> <0050>\nendbfrange",
+		"2 beginbfrange\n<0003> <0004> <0050> <0001> <0002> [<0041> <0042>]\nendbfrange",
+		"2 beginbfrange<0001><0002>[<0041><0042>]<0003><0004><0050>endbfrange",
+	} {
+		cm := cmapOf(t, body)
+		got := cm.LookupString([]byte{0, 1, 0, 2, 0, 3, 0, 4})
+		if got != "ABPQ" {
+			t.Errorf("%q decodes codes 1..4 to %q, want \"ABPQ\"", body, got)
+		}
+	}
+}
+
+// C07 / R7.11: the code space range was looked for line by line too (two hex strings on one line), so a range whose
+// low and high bounds stand on different lines, or a CMap with CR line breaks, left the code width undetermined.
+func TestCodeSpaceRangeUnderEveryFormatting(t *testing.T) {
+	for _, csr := range []string{
+		"1 begincodespacerange\n<0000> <FFFF>\nendcodespacerange",
+		"1 begincodespacerange\n<0000>\n<FFFF>\nendcodespacerange",
+		"1 begincodespacerange <0000> <FFFF> endcodespacerange",
+		"1 begincodespacerange\r<0000> <FFFF>\rendcodespacerange",
+	} {
+		src := "/CIDInit /ProcSet findresource begin\n12 dict begin\nbegincmap\n" + csr + "\n2 beginbfchar\n<0041> <0078>\n<4100> <0079>\nendbfchar\nendcmap\n"
+		cm, err := font.ParseToUnicodeCMap(&core.Stream{Dict: core.Dict{}, Data: []byte(src)})
+		if err != nil {
+			t.Fatal(err)
+		}
+		// 41 00 is ONE two-byte code (-> y); without the code space the decoder guesses and takes 41 alone (-> x)
+		if got := cm.LookupString([]byte{0x41, 0x00, 0x00, 0x41}); got != "yx" {
+			t.Errorf("%q: 4100 0041 decodes to %q, want \"yx\"", csr, got)
+		}
+	}
+}
